@@ -111,6 +111,17 @@ func init() {
 		}
 		return Val{T: resT, Term: app("to_real", app("to_int", c.termOf(args[0])))}
 	}
+	externalModels["math.Mod"] = func(fr *Frame, callee *ssa.Function, args []Val, resT types.Type, st *State, reach string, pos token.Pos) Val {
+		c := fr.c
+		x, y := c.termOf(args[0]), c.termOf(args[1])
+		if c.floatsIEEE {
+			return Val{T: resT, Term: app("fp.rem", x, y)}
+		}
+		// x - y*trunc(x/y) (mathematical reals)
+		q := app("/", x, y)
+		tr := fmt.Sprintf("(ite (>= %s 0.0) (to_int %s) (- (to_int (- %s))))", q, q, q)
+		return Val{T: resT, Term: c.smt.define("fmod", "Real", app("-", x, app("*", y, app("to_real", tr))))}
+	}
 	externalModels["math.Abs"] = func(fr *Frame, callee *ssa.Function, args []Val, resT types.Type, st *State, reach string, pos token.Pos) Val {
 		c := fr.c
 		x := c.termOf(args[0])
